@@ -336,12 +336,12 @@ func (busEngine) run(ctx *simrt.Ctx) *simrt.Violation {
 			ctx.Faults["subscriber_stalled_buffers_full"]++
 			w.mu.Unlock()
 			atomic.StoreInt32(&flooded, 1)
+			// The stalled subscriber's own client is closed now, by a goroutine that
+			// is not one of the scheduled tasks: Close waits for the subscriber's pump
+			// and the pump waits for a reader, so this call may legitimately never
+			// return. What must not happen is that it takes the rest of the bus with it.
+			go stall.Close()
 		})
-		// (its client is never closed by anybody: Close waits for the subscriber's
-		// pump, which waits for somebody to read; what must work is the final
-		// queue.Close, which closes this topic like every other, and all the other
-		// topics meanwhile)
-		_ = stall
 	}
 	// phase 1: run the traffic
 	dead := sched.Run(4000)
